@@ -22,6 +22,7 @@ REPO = Path(os.environ.get("VERIF_REPO", "/repo"))
 COQ = VERIF / "coq"
 PY = os.environ.get("VERIF_PY", "/venv/bin/python")
 NPROC = int(os.environ.get("VERIF_JOBS", "16"))
+QFLAGS = " ".join("-Q %s/%s V.%s" % (COQ, d, d) for d in ("Core", "Gen", "Model", "Proofs", "Props"))
 
 # axioms declared by the standard library itself that a theorem may depend on
 # (each one that actually occurs is copied into the evidence / trusted base)
@@ -117,13 +118,24 @@ class Run:
         self.notes = []
         self.known = [k for k in json.load(open(VERIF / "known_findings.json"))["findings"]
                       if k["property"] == pid]
+        self.repo_state0 = self.repo_state()
+
+    @staticmethod
+    def repo_state():
+        """(HEAD, digest of the uncommitted diff) of the implementation under test"""
+        rc1, head = sh("git -C %s rev-parse --short HEAD" % REPO, timeout=60)
+        rc2, diff = sh("git -C %s diff HEAD -- sympde" % REPO, timeout=60)
+        return {"repo": str(REPO), "head": head.strip() if rc1 == 0 else "?",
+                "worktree_diff_sha1": hashlib.sha1(diff.encode()).hexdigest()[:12] if diff.strip() else "clean"}
 
     # ------------------------------------------------------------------ coq
     def write_coqproject(self):
         files = []
         for d in ("Core", "Gen", "Model", "Proofs", "Props"):
             files += sorted(str(p.relative_to(COQ)) for p in (COQ / d).glob("*.v"))
-        txt = "-Q . V\n-arg -w -arg none\n" + "\n".join(files) + "\n"
+        # one -Q per project directory: `-Q . V` would also map scratch copies under coq/wip
+        txt = "".join("-Q %s V.%s\n" % (d, d) for d in ("Core", "Gen", "Model", "Proofs", "Props")) \
+            + "-arg -w -arg none\n" + "\n".join(files) + "\n"
         cp = COQ / "_CoqProject"
         if not cp.exists() or cp.read_text() != txt:
             cp.write_text(txt)
@@ -174,7 +186,7 @@ class Run:
         ok = self.coq_build(["Props/%s.vo" % self.pid] + list(extra_targets))
         assum = {}
         if ok:
-            rc, out = sh("coqc -Q . V -w none Props/%s.v" % self.pid, cwd=COQ, timeout=900)
+            rc, out = sh("coqc %s -w none Props/%s.v" % (QFLAGS, self.pid), cwd=COQ, timeout=900)
             ok = rc == 0
             blocks = re.split(r"(?m)^(?=Closed under the global context|Axioms:)", out)
             blocks = [b for b in blocks if b.startswith("Closed under") or b.startswith("Axioms:")]
@@ -204,7 +216,7 @@ class Run:
         self.coqchk = None
         if self.proof_ok and self.tier == "thorough":
             # independent re-check of the compiled theorems and of everything they depend on
-            rc, out = sh("coqchk -silent -o -Q . V V.Props.%s" % self.pid, cwd=COQ, timeout=3600)
+            rc, out = sh("coqchk -silent -o %s V.Props.%s" % (QFLAGS, self.pid), cwd=COQ, timeout=3600)
             m = re.search(r"\* Axioms:(.*?)\n\s*\n", out + "\n\n", re.S)
             axioms = (m.group(1).strip() if m else "?")
             self.coqchk = {"rc": rc, "axioms": axioms[:1500],
@@ -235,7 +247,7 @@ class Run:
         """Compile a generated case file in the work dir; returns (rc, stdout)."""
         f = self.work / ("%s.v" % name)
         f.write_text(text)
-        return sh("coqc -Q %s V -w none %s" % (COQ, f.name), cwd=self.work, timeout=timeout)
+        return sh("coqc %s -w none %s" % (QFLAGS, f.name), cwd=self.work, timeout=timeout)
 
     def coq_eval_many(self, files, timeout=900):
         """files: {name: text}; compiled in parallel. Returns {name: (rc, out)}."""
@@ -251,7 +263,7 @@ class Run:
             while i < len(names) and len(running) < NPROC:
                 n = names[i]; i += 1
                 running[n] = subprocess.Popen(
-                    "timeout %d coqc -Q %s V -w none %s.v" % (timeout, COQ, n), shell=True, cwd=self.work,
+                    "timeout %d coqc %s -w none %s.v" % (timeout, QFLAGS, n), shell=True, cwd=self.work,
                     stdout=subprocess.PIPE, stderr=subprocess.STDOUT, text=True, env=e)
             done = [n for n, p in running.items() if p.poll() is not None]
             for n in done:
@@ -370,6 +382,11 @@ class Run:
         if getattr(self, "coqchk", None):
             cov["coqchk"] = self.coqchk
             tb.append("coqchk -o (independent checker) axioms: %s" % self.coqchk["axioms"])
+        end_state = self.repo_state()
+        cov["implementation_under_test"] = self.repo_state0
+        if end_state != self.repo_state0:
+            self.notes.append("the implementation's working tree changed while this check was running: %s -> %s"
+                              % (self.repo_state0, end_state))
         if self.notes:
             cov["notes"] = self.notes
         ev = {"property_id": self.pid, "tier": self.tier, "seed": self.seed, "level": level,
